@@ -9,7 +9,7 @@ ATOMS = [b'a', b'\n', b'\x00', b'\xc3\xa9', b'\xe3\x81\x82', b'\xf0\x9f\x98\x80'
 RULE = ('device output = concatenation of <=k atoms from a UTF-8-hostile alphabet (ASCII, NL, NUL, 2/3/4-byte sequences, 0xff, lone lead, '
         'lone continuation) plus the empty output; ALL 2^(n-1) partitions of the n-byte output into WRTE payloads (choice point) x '
         '{shell, exec_out, streaming_shell, root} x decode x {sync, async} x CLSE {after ack, eager}; large payloads at maxdata boundaries; '
-        'read-fragment deviations; a second live stream with distinct bytes in flight under every device wire order; an OPEN answered only after the caller timed out, followed by further commands; a device without stop-and-wait that writes up to 1000 packets of a suspended stream while another command runs; oracle = device-side '
+        'read-fragment deviations; a slow chatty device (every packet within the read timeout, the command longer than it, within timeout_s); a second live stream with distinct bytes in flight under every device wire order; an OPEN answered only after the caller timed out, followed by further commands; a device without stop-and-wait that writes up to 1000 packets of a suspended stream while another command runs; oracle = device-side '
         'per-stream payload record and Python bytes.decode(utf8, backslashreplace); non-trivial = output non-empty; distinct = distinct '
         '(output, partition, api, decode, twin, close timing, deviations)')
 ASSUMPTIONS = ['adbsim is a faithful adbd model (one unacknowledged WRTE per stream, CLSE after the last ack or eagerly)',
@@ -55,10 +55,19 @@ def run_one(params, ch):
     cfg = {'shell': {dest: chunks}, 'clse': clse, 'maxdata': params.get('maxdata', 1024 * 1024)}
     if params.get('policy'):
         cfg['frag_policy'] = params['policy']
+    slow = params.get('slow')          # (seconds per WRTE/CLSE, read_timeout_s, timeout_s): every packet in time, the whole command within timeout_s
+    if slow:
+        cfg['wrte_delay'] = cfg['clse_delay'] = slow[0]
     s = Session(ch, cfg, twin=twin, frag=frag)
     try:
         s.op(('connect',))
-        r = call(s, api, 'c', decode)
+        if slow:
+            kw = {'decode': decode, 'read_timeout_s': slow[1]}
+            if api != 'streaming_shell':
+                kw['timeout_s'] = slow[2]
+            r = s.op(('root', kw) if api == 'root' else (api, 'c', kw))
+        else:
+            r = call(s, api, 'c', decode)
         env = s.env
         st = [x for x in env.dev.all_streams]
         wrote = st[0].wrote if st else []
@@ -231,6 +240,11 @@ def parts(tier):
     out.append(Part('partitions-under-read-fragmentation', pol, run_one, {'partition': None}, what='all WRTE partitions under global bulk_read fragmentation policies (every payload reassembled from several reads)',
                     bound='%d scenarios x all partitions' % len(pol)))
     iso = [{'twin': t, 'api': a, 'decode': d, 'clse': c, 'nother': n, 'family': f} for t in twins for a in apis for d in (True, False) for c in ('after-ack', 'eager') for n in (3, 1) for f in (None, 'mirror')]
+    slow = [{'data': b'0123456789abcdef'[:n], 'chunks': [b'0123456789abcdef'[i:i + 1] for i in range(n)], 'api': a, 'decode': False, 'twin': t, 'clse': c, 'slow': sl}
+            for n in (2, 6, 16) for a in ('shell', 'exec_out', 'streaming_shell') for t in ('sync', 'async') for c in ('after-ack', 'eager')
+            for sl in ((0.3, 1.0, None), (0.3, 1.0, 30.0), (0.3, 1.0, 6.0), (0.9, 1.0, 60.0), (0.05, 0.1, 5.0))]
+    out.append(Part('slow-chatty-device', slow, run_one, what='a slow device: 2/6/16 one-byte WRTEs, each within the read timeout, the whole command longer than the read timeout but within timeout_s',
+                    bound='%d cases' % len(slow)))
     out.append(Part('isolation', iso, run_iso, {'dev-order': None}, what='second live stream with bytes in flight, all device wire orders',
                     bound='all dev-order choices'))
     late = [{'twin': t, 'api': a, 'decode': d, 'clse': c, 'delay': dl, 'nlate': nl} for t in twins for a in apis for d in (True, False) for c in ('after-ack', 'eager')
